@@ -150,6 +150,26 @@ def ops_programs():
         yield 'call %s' % t, pre + '%s callee(%s, ...); void f(%s a) { %s r = callee(a, a, a); sink(&r); }\n' % (t, t, t, t)
 
 
+def signature_programs():
+    """definitions and calls of the same function in one unit, for every parameter/return type kind, named and unnamed (C23) parameters,
+    definition before or after the call, fixed and variadic: every call must agree in class with the signature of the definition, and every
+    aggregate type must be defined before its first use (seeded round 11: the type of an unnamed aggregate parameter was not emitted)"""
+    pre = 'struct sa { long a, b, c; }; union ua { double d; long l; }; struct sb { float x, y; }; struct sc { char c[3]; };\n'
+    types = ['int', 'double', 'struct sa', 'union ua', 'struct sb', 'struct sc', 'struct sa *', 'char', 'float', '_Bool']
+    for t in types:
+        for r in ('void', 'int', t):
+            for named in (True, False):
+                for vari in ('', ', ...'):
+                    pn = ' p' if named else ''
+                    body = '{ %s }' % ('return;' if r == 'void' else 'return (%s){0};' % r if r.startswith(('struct', 'union')) else 'return 0;')
+                    defn = '%s callee(%s%s, int n%s) %s\n' % (r, t, pn, vari, body)
+                    proto = '%s callee(%s, int%s);\n' % (r, t, vari)
+                    user = 'void user(%s *q) { %scallee(*q, 3%s); }\n' % (t, '' if r == 'void' else '(void)', ', *q, 1.5' if vari else '')
+                    yield 'sig/def-first', pre + defn + user
+                    yield 'sig/call-first', pre + proto + user + defn
+                    yield 'sig/no-prototype-before-definition-only', pre + user.replace('callee', 'callee2') .replace('void user', proto.replace('callee', 'callee2') + 'void user') + defn.replace('callee', 'other')
+
+
 DATA_UNIT = r'''
 struct s1 { char c; int i; short s; };
 struct bf { int a : 3; int b : 5; int : 0; unsigned c : 9; char d; };
@@ -285,6 +305,11 @@ def main(chk):
     for body, n in stmt_trees(3 if chk.quick else 4, ALLOC_LEAVES):
         push('alloc/%d' % n, alloc_program(body, True))
         push('alloc/%d' % n, alloc_program(body, False))
+    for label, src in signature_programs():
+        push(label, src)
+        if not chk.quick:
+            push('sig/aarch64', src, 'aarch64')
+            push('sig/riscv64', src, 'riscv64')
     for label, src in ops_programs():
         push('ops/' + label.split(' ')[-2] if ' ' in label else 'ops/unary', src)
         if not chk.quick:
